@@ -576,10 +576,12 @@ func checkC10(w *World, r *Report) {
 	r.Rule("C10.select", "P7", "= C02.select: ContainsMinter guarantees that a period with the state's sequence id is configured; the block routine finds it only if the selection is by sequence id over all periods (a selection by list position returns 'not found' - and BeginBlock panics - for accepted lists whose ids do not start at 1)", 18)
 	r.Rule("C10.currentperiod", "P5", "every minter parameter write reachable from a message is dominated by ContainsMinter(current SequenceId); the genesis validator contains the same predicate", 3)
 	r.Rule("C10.swallow", "P5", "the distributor's block tree contains no explicit panic and its bank operations return their errors to callers that log and continue", 5)
+	r.Rule("C10.wrapper", "P4,P6", "= C14.wrapper: the distributor's bank wrappers move exactly what they are asked to and report failure; a wrapper that quietly moves less lets the books exceed the balance, and the next block's balance - remains subtraction panics", 4)
 	r.Rule("C10.perm", "P8", "module accounts named in distributor parameters are validated against maccPerms (membership predicate on the ModuleAccount case), and the table handed to the validator is app.maccPerms", 2)
 	if !ro.checkFloors(r) {
 		return
 	}
+	wrapperRule(w, r, "C10.wrapper")
 	iv := newInv(w, r, "C10.inventory", c10Vetted)
 	iv.Run(flatten(ro.BLK), "BLK")
 	iv.Finish()
